@@ -5,7 +5,7 @@ import numpy as np
 import impl, gen, oracle, evalutil as E
 from common import close, same_value
 
-RULE = ("one-sided rejection cases (a label covered by no class group, or a negative semantic value, in one of the two maps only: both directions must be rejected alike); label-map pairs with unequal instance counts and different label ranges on the two sides (incl. gaps in the "
+RULE = ("both directions re-evaluated in child interpreters (python -O; pinned to a single core) on scenes with crosswise shared label values; one-sided rejection cases (a label covered by no class group, or a negative semantic value, in one of the two maps only: both directions must be rejected alike); label-map pairs with unequal instance counts and different label ranges on the two sides (incl. gaps in the "
         "label values and label products near dtype boundaries) x input types x one-to-one threshold matching with "
         "IoU/Dice/ASSD; evaluate(pred, ref) vs evaluate(ref, pred); tie cases are only checked for validity; "
         "non-trivial = tp >= 1 and (fp != fn or some RVD != 0)")
@@ -197,9 +197,38 @@ def rejection_cases(ctx, n):
                           f"evaluate(b, a) -> {bwd if isinstance(bwd, str) else 'a result'}", inp, key={"kind": "raises"})
 
 
+def environment_cases(ctx, n):
+    """the mirror relation in other process states: a child interpreter started with -O, and a child pinned to a single
+    core; scenes in which label values are shared crosswise between the two maps and a prediction reaches far beyond
+    its reference's bounding box"""
+    rng = ctx.rng
+    cases = []
+    for i in range(n):
+        sc = gen.shared_value_scene(rng, dtype=np.uint8)
+        if sc is None:
+            continue
+        pred, ref = sc
+        cfg = E.mk_cfg("UNMATCHED", ["IOU", "DSC", "RVD"], matcher=E.naive("IOU", (1, 2)))
+        if not unique_matching(cfg, pred, ref):
+            continue
+        cases.append({"cfg": cfg, "pred": pred, "ref": ref})
+        cases.append({"cfg": cfg, "pred": ref, "ref": pred})
+    for mode, kw in (("python -O", {}), ("one usable core", {"optimize": False, "one_core": True})):
+        diffs = E.optimized_differences(ctx, cases, mode=mode, **kw)
+        ctx.count("child." + mode.replace(" ", "_"), len(cases))
+        for k, d in diffs[:3]:
+            c = cases[k]
+            inp = {"shape": list(c["pred"].shape), "dtype": "uint8", "pred": gen.arr_json(c["pred"]), "ref": gen.arr_json(c["ref"]), "cfg": c["cfg"],
+                   "mode": mode, "src": f"environment{k}"}
+            ctx.case(inp, True)
+            ctx.violation(f"C11 violated in a child interpreter ({mode}): the pair evaluates differently than in this process, where both directions mirror: {d}",
+                          inp, key={"kind": "environment"})
+
+
 def run(ctx):
     corpus(ctx)
     corpus2(ctx)
+    environment_cases(ctx, ctx.scale(8, 40))
     rejection_cases(ctx, ctx.scale(80, 800))
     run_cases(ctx, ctx.scale(500, 5000), "rand")
 
@@ -210,6 +239,9 @@ def search(ctx):
 
 def replay(ctx, rec):
     i = rec["input"]
+    if i.get("mode") in ("python -O", "one usable core"):
+        environment_cases(ctx, 12)
+        return
     if i.get("kind") in ("stray-label", "negative"):
         dt = np.dtype(i["dtype"])
         a, b = np.array(i["pred"], dtype=dt).reshape(i["shape"]), np.array(i["ref"], dtype=dt).reshape(i["shape"])
